@@ -194,7 +194,7 @@ def write_bundle(unit, sizes, cap):
     ps = unit.params(fn)
     buf = {}
     oob = []
-    st = {"va": 0}
+    st = {}           # va_list (its declaration) -> index of the next element it hands out
     holder = {}
 
     def elem_of(p, n):
@@ -221,21 +221,40 @@ def write_bundle(unit, sizes, cap):
 
     def hook(n, ev):
         k = n.get("kind")
+        def va_key(e):
+            v = ev.ev(e)
+            if not (isinstance(v, tuple) and len(v) == 2 and v[0] == "va"):
+                raise FD.Unknown("not a va_list: %r" % (v,), e)
+            return v[1]
         if k == "VAArgExpr":
-            i = st["va"]
-            st["va"] += 1
+            key = va_key(A.kids(n)[0])
+            if key not in st:
+                raise FD.Unknown("va_arg on a list that was not started", n)
+            i = st[key]
+            st[key] += 1
             if i >= len(sizes):
                 raise FD.Unknown("more va_arg than elements", n)
             return ELB + i * 0x1000
         if k == "CallExpr" and A.callee_name(n) in ("__builtin_va_start", "va_start"):
-            st["va"] = 0
+            st[va_key(A.kids(n)[1])] = 0
             return 0
-        if k == "CallExpr" and A.callee_name(n) in ("__builtin_va_end", "va_end", "__assert_fail"):
+        if k == "CallExpr" and A.callee_name(n) in ("__builtin_va_copy", "va_copy"):
+            src_ = va_key(A.kids(n)[2])
+            if src_ not in st:
+                raise FD.Unknown("va_copy of a list that was not started", n)
+            st[va_key(A.kids(n)[1])] = st[src_]
             return 0
-        if k == "DeclRefExpr" and "va_list" in (A.qtype(n) or "") + ((n.get("referencedDecl") or {}).get("type", {}) or {}).get("qualType", ""):
-            return ("va",)
-        if k == "DeclRefExpr" and "__va_list_tag" in (A.qtype(n) or ""):
-            return ("va",)
+        if k == "CallExpr" and A.callee_name(n) in ("__builtin_va_end", "va_end"):
+            st.pop(va_key(A.kids(n)[1]), None)
+            return 0
+        if k == "CallExpr" and A.callee_name(n) in ("__assert_fail",):
+            return 0
+        if k == "DeclRefExpr" and ("va_list" in (A.qtype(n) or "") + ((n.get("referencedDecl") or {}).get("type", {}) or {}).get("qualType", "")
+                                   or "__va_list_tag" in (A.qtype(n) or "")):
+            did = (n.get("referencedDecl") or {}).get("id")
+            if did in ev.env and isinstance(ev.env[did], tuple):
+                return ev.env[did]           # a va_list parameter: the caller's list (it is passed by reference)
+            return ("va", did)
         if k == "StringLiteral":
             return A.string_literal(n)
         if k == "ImplicitCastExpr" and n.get("castKind") == "ArrayToPointerDecay":
@@ -243,7 +262,7 @@ def write_bundle(unit, sizes, cap):
             if A.string_literal(inner) is not None:
                 return A.string_literal(inner)
             if "__va_list_tag" in (A.qtype(inner) or "") or "va_list" in (A.qtype(inner) or ""):
-                return ("va",)
+                return ev.ev(inner)
         return NotImplemented
 
     def call(nm, vals, n):
